@@ -174,7 +174,8 @@ pub fn place(placement: usize, e: Expression) -> Tx {
         validity: Some(Validity { since: n(10), until: n(20) }),
         mints: vec![Mint { amount: Expression::Assets(vec![tirb::token(&[0x31; 28], b"M", 4)]), redeemer: Expression::None }],
         burns: vec![Mint { amount: Expression::Assets(vec![tirb::token(&[0x32; 28], b"B", 1)]), redeemer: Expression::None }],
-        adhoc: vec![AdHocDirective { name: "custom".into(), data: HashMap::from([("k".to_string(), n(1))]) }],
+        // (beside members that were left out: an absent member is a member)
+        adhoc: vec![AdHocDirective { name: "custom".into(), data: HashMap::from([("k".to_string(), n(1)), ("absent".to_string(), Expression::None), ("zz_absent".to_string(), Expression::None)]) }],
         collateral: vec![Collateral { utxos: set.clone() }],
         signers: Some(Signers { signers: vec![Expression::Bytes(vec![0x41; 28])] }),
         metadata: vec![Metadata { key: n(1), value: Expression::String("v".into()) }],
